@@ -69,6 +69,15 @@ def match(pid, fail):
     if pid == "C09" and fail.get("check") == "swap" and fail.get("returned_rounded_to_struct_alignment") \
             and "swap returned offset" in what:
         return "raw-swap-greedy-return-rounded"
+    if pid == "C14" and fail.get("check") == "expr" and str(fail.get("context", "")).startswith("isar"):
+        ctx = str(fail.get("context"))
+        text = ctx[ctx.find("(") + 1:] if "(" in ctx else str(fail.get("min")) + str(fail.get("full"))
+        if ctx.startswith("isar ->") or ctx == "isar":
+            text = ctx if "(" in ctx else str(fail.get("min")) + " " + str(fail.get("full"))
+        if "/" in text or "<<" in text or ">>" in text:
+            # isar constant values reach the generated Python module as raw text and are
+            # evaluated there with Python's '/' (true division) and shift precedence
+            return "isar-raw-expression-text"
     feats = set(fail.get("features") or ())
     for f in sorted(EXPLAINS.get((pid, fail.get("check")), set()) & feats):
         return f
